@@ -1148,7 +1148,8 @@ def generate_validator_constructor(ns, data_type):
             v = '{}.{}'.format(fmt_namespace(dt.namespace.name), v)
     elif is_alias(dt):
         # Assume that the alias has already been declared elsewhere.
-        name = fmt_class(dt.name) + '_validator'
+        # (under the name the spec gives the alias; see _generate_alias_definition)
+        name = dt.name + '_validator'
         if ns.name != dt.namespace.name:
             name = '{}.{}'.format(fmt_namespace(dt.namespace.name), name)
         v = name
